@@ -10,8 +10,8 @@ CRED = {'username': 'u', 'password': 'pw'}
 CRED2 = {'username': 'v', 'password': 'x'}
 
 
-def instrument(w, auth, mode, read_only):
-    return w.s.instrument(auth=auth, mode=mode, read_only=read_only)
+def instrument(w, auth, mode, read_only, namespace='/admin'):
+    return w.s.instrument(auth=auth, mode=mode, read_only=read_only, namespace=namespace)
 
 
 def admin_members(w):
@@ -182,13 +182,14 @@ def h_transparent(t, part):
         w.s.on('connect', mk('connect'))
         w.s.on('disconnect', mk('disconnect'))
         w.s.on('ev', mk('ev', ('r', 0)))
+        adm = part.get('admin_ns', ADMIN)
         if instrumented:
-            instrument(w, False, part['mode'], part['read_only'])
+            instrument(w, False, part['mode'], part['read_only'], namespace=adm)
         es = ['e0', 'e1']
         for e in es + ['a0']:
             w.open(e)
         if instrumented and with_admin:
-            w.connect('a0', ADMIN)
+            w.connect('a0', adm)
         live = {}
         for i, e in enumerate(es):
             sid = w.connect(e, '/')
@@ -212,7 +213,7 @@ def h_transparent(t, part):
             elif op == 8:
                 if instrumented and with_admin:
                     w.open('a1')
-                    w.connect('a1', ADMIN)                              # another admin logs in later
+                    w.connect('a1', adm)                              # another admin logs in later
             elif op == 7:
                 for e2 in es:                                           # the namespace empties
                     if live[e2]:
@@ -280,8 +281,10 @@ def ro_parts(tier):
 
 def tr_parts(tier):
     n = 2 if tier == 'quick' else 3
-    return [{'async': a, 'mode': m, 'read_only': ro, 'admin': ad, 'n': n} for a in (False, True)
-            for m, ro in (('development', False), ('production', True)) for ad in (False, True)]
+    out = [{'async': a, 'mode': m, 'read_only': ro, 'admin': ad, 'n': n} for a in (False, True)
+           for m, ro in (('development', False), ('production', True)) for ad in (False, True)]
+    out += [{'async': a, 'mode': 'development', 'read_only': False, 'admin': True, 'n': n, 'admin_ns': '/monitor'} for a in (False, True)]
+    return out
 
 
 CHECKS = [
